@@ -3,7 +3,7 @@
    them.  Each theorem also pins the meaning of the translated function's parameters (the source
    text of the sub-expressions the translator leaves uninterpreted). *)
 From Coq Require Import String List ZArith Bool Lia.
-From Mux Require Import Model.Bytes Model.Syntax Model.Tree Gen.Consts Gen.PureFuns.
+From Mux Require Import Model.Bytes Model.Syntax Model.Tree Model.Http Model.Cors Gen.Consts Gen.PureFuns Proofs.PureCors.
 Import ListNotations.
 Open Scope string_scope.
 
@@ -97,3 +97,28 @@ Proof.
   destruct (styp seg); reflexivity.
 Qed.
 Print Assumptions C10_seg_valid_is_source.
+
+(* cors.handle: the sequence of header writes the source makes, as a function of its inputs, is the model's
+   [cors_handle] (proof in Proofs/PureCors.v) *)
+Theorem C11_cors_handle_is_source :
+  src_cors_handle_atoms = ["c.deny"; "r.Header.Get(header.AccessControlRequestMethod)"; "r.Method"; "r.URL.Path";
+    "slices.Index(node.Methods(), reqMethod)"; "node.AllowHeader()"; "c.headerIsAllowed(r)"; "c.allowHeadersString";
+    "c.maxAgeString"; "c.anyOrigins"; "r.Header.Get(header.Origin)"; "slices.Index(c.Origins, origin)";
+    "c.AllowCredentials"; "c.exposedHeadersString"] /\
+  forall c node_methods node_allow q wh,
+    cors_handle c node_methods node_allow q wh =
+    fold_left apply_sev
+      (src_cors_handle bytes bs beqb (c_deny c) (q_acrm q) (q_method q) (q_path q) (idx (q_acrm q) node_methods) node_allow
+         (header_is_allowed c (q_acrh q)) (c_allow_headers_string c) (c_max_age_string c) (c_any_origins c) (q_origin q)
+         (idx (q_origin q) (c_origins c)) (c_creds c) (c_exposed_string c)) wh.
+Proof. exact cors_handle_is_source. Qed.
+Print Assumptions C11_cors_handle_is_source.
+
+Theorem C12_cors_handle_is_source : forall c node_methods node_allow q wh,
+    cors_handle c node_methods node_allow q wh =
+    fold_left apply_sev
+      (src_cors_handle bytes bs beqb (c_deny c) (q_acrm q) (q_method q) (q_path q) (idx (q_acrm q) node_methods) node_allow
+         (header_is_allowed c (q_acrh q)) (c_allow_headers_string c) (c_max_age_string c) (c_any_origins c) (q_origin q)
+         (idx (q_origin q) (c_origins c)) (c_creds c) (c_exposed_string c)) wh.
+Proof. exact (proj2 cors_handle_is_source). Qed.
+Print Assumptions C12_cors_handle_is_source.
